@@ -4,6 +4,7 @@
 
 pub open spec fn br_tz64(x: u64) -> u32 { vstd::std_specs::bits::u64_trailing_zeros(x) }
 pub open spec fn br_tz128(x: u128) -> u32 { dd_tz(x) }
+pub open spec fn br_tz32(x: u32) -> u32 { vstd::std_specs::bits::u32_trailing_zeros(x) }
 
 pub proof fn lemma_br_pow2_step(k: nat)
     requires k >= 1,
@@ -63,10 +64,12 @@ pub proof fn lemma_br_shr64(x: u64, k: u32)
     if k == 0 {
         assert(x >> 0u32 == x) by (bit_vector);
         vstd::arithmetic::power2::lemma2_to64();
+        assert((x as int) / 1 == x as int);
     } else {
         let k1 = (k - 1) as u32;
         lemma_br_pow2_step(k as nat);
         let p = pow2(k1 as nat) as int;
+        assert(pow2(k as nat) as int == p * 2);
         lemma_br_shr64(x, k1);
         let y = x >> k1;
         assert(x >> k == (y >> 1u32)) by (bit_vector) requires y == x >> k1, k1 == (k - 1) as u32, 0 < k < 64;
@@ -99,7 +102,7 @@ pub proof fn lemma_br_tz64_bits(x: u64)
 /// x != 0:  i = trailing_zeros(x) < 64,  x >> i is odd,  x == (x >> i) * 2^i
 pub proof fn lemma_br_tz64(x: u64)
     requires x != 0,
-    ensures br_tz64(x) < 64, ((x >> br_tz64(x)) as int) % 2 == 1, (x >> br_tz64(x)) >= 1,
+    ensures br_tz64(x) < 64, ((x >> br_tz64(x)) as int) % 2 == 1, (x >> br_tz64(x)) >= 1, (x >> br_tz64(x)) <= x,
         x as int == ((x >> br_tz64(x)) as int) * pow2(br_tz64(x) as nat),
 {
     let i = br_tz64(x);
@@ -113,6 +116,7 @@ pub proof fn lemma_br_tz64(x: u64)
     vstd::arithmetic::div_mod::lemma_mod_bound(x as int, p);
     assert((xo as int) * p == p * (xo as int)) by (nonlinear_arith);
     lemma_br_shl64(xo, i);
+    assert((xo as int) <= (xo as int) * p) by (nonlinear_arith) requires p >= 1, xo >= 0;
 }
 
 /// trailing_zeros(a | b) == min(trailing_zeros(a), trailing_zeros(b))
@@ -131,6 +135,121 @@ pub proof fn lemma_br_tz64_or(a: u64, b: u64)
 }
 
 pub proof fn lemma_br_or_zero64(a: u64, b: u64)
+    ensures a == 0 ==> (a | b) == b, b == 0 ==> (a | b) == a, ((a | b) > 0) == (a != 0 || b != 0),
+        ((a & b & 1) > 0) == ((a as int) % 2 == 1 && (b as int) % 2 == 1),
+{
+    assert(a == 0 ==> (a | b) == b) by (bit_vector);
+    assert(b == 0 ==> (a | b) == a) by (bit_vector);
+    assert(((a | b) > 0) == (a != 0 || b != 0)) by (bit_vector);
+    assert(((a & b & 1) > 0) == (a % 2 == 1 && b % 2 == 1)) by (bit_vector);
+}
+
+// ---- u32 ------------------------------------------------------------------------------------------------------------------
+
+/// x << k  ==  x * 2^k  when nothing is shifted out
+pub proof fn lemma_br_shl32(x: u32, k: u32)
+    requires k < 32, (x as int) * pow2(k as nat) <= u32::MAX,
+    ensures (x << k) as int == (x as int) * pow2(k as nat),
+    decreases k,
+{
+    if k == 0 {
+        assert(x << 0u32 == x) by (bit_vector);
+        vstd::arithmetic::power2::lemma2_to64();
+        assert((x as int) * 1 == x as int);
+    } else {
+        let k1 = (k - 1) as u32;
+        lemma_br_pow2_step(k as nat);
+        let p = pow2(k1 as nat) as int;
+        let xi = x as int;
+        assert(xi * p <= u32::MAX / 2) by (nonlinear_arith) requires xi * (2 * p) <= u32::MAX, xi >= 0, p >= 1;
+        lemma_br_shl32(x, k1);
+        let y = x << k1;
+        assert(x << k == (y << 1u32)) by (bit_vector) requires y == x << k1, k1 == (k - 1) as u32, 0 < k < 32;
+        assert((y << 1u32) == 2 * y) by (bit_vector) requires y <= 0x7fff_ffffu32;
+        assert(2 * (xi * p) == xi * (2 * p)) by (nonlinear_arith);
+    }
+}
+
+/// x >> k  ==  x div 2^k
+pub proof fn lemma_br_shr32(x: u32, k: u32)
+    requires k < 32,
+    ensures (x >> k) as int == (x as int) / (pow2(k as nat) as int),
+    decreases k,
+{
+    if k == 0 {
+        assert(x >> 0u32 == x) by (bit_vector);
+        vstd::arithmetic::power2::lemma2_to64();
+        assert((x as int) / 1 == x as int);
+    } else {
+        let k1 = (k - 1) as u32;
+        lemma_br_pow2_step(k as nat);
+        let p = pow2(k1 as nat) as int;
+        assert(pow2(k as nat) as int == p * 2);
+        lemma_br_shr32(x, k1);
+        let y = x >> k1;
+        assert(x >> k == (y >> 1u32)) by (bit_vector) requires y == x >> k1, k1 == (k - 1) as u32, 0 < k < 32;
+        assert((y >> 1u32) == y / 2) by (bit_vector);
+        vstd::arithmetic::div_mod::lemma_div_denominator(x as int, p, 2);
+        assert(p * 2 == 2 * p);
+        assert(((x as int) / p) / 2 == (x as int) / (p * 2));
+        assert((y >> 1u32) as int == (y as int) / 2);
+    }
+}
+
+/// the vstd axioms of u32::trailing_zeros in the form used below (shift amounts of type u32, as in the code)
+pub proof fn lemma_br_tz32_bits(x: u32)
+    ensures br_tz32(x) <= 32, (x == 0) == (br_tz32(x) == 32),
+        br_tz32(x) < 32 ==> ((x >> br_tz32(x)) & 1) == 1 && ((x >> br_tz32(x)) << br_tz32(x)) == x,
+{
+    let r = br_tz32(x);
+    vstd::std_specs::bits::axiom_u32_trailing_zeros(x);
+    if r < 32 {
+        let rw = r as u32;
+        let up = (32 - r) as u32;
+        assert(sub(32u32, rw) == up);
+        assert(x << up == 0);
+        assert(((x >> rw) & 1) == 1);
+        assert(((x >> r) & 1) == 1 && ((x >> r) << r) == x) by (bit_vector)
+            requires r < 32, rw == r as u32, up == 32 - rw, x << up == 0, ((x >> rw) & 1) == 1;
+    }
+}
+
+/// x != 0:  i = trailing_zeros(x) < 32,  x >> i is odd,  x == (x >> i) * 2^i
+pub proof fn lemma_br_tz32(x: u32)
+    requires x != 0,
+    ensures br_tz32(x) < 32, ((x >> br_tz32(x)) as int) % 2 == 1, (x >> br_tz32(x)) >= 1, (x >> br_tz32(x)) <= x,
+        x as int == ((x >> br_tz32(x)) as int) * pow2(br_tz32(x) as nat),
+{
+    let i = br_tz32(x);
+    lemma_br_tz32_bits(x);
+    let xo = x >> i;
+    assert(xo % 2 == 1) by (bit_vector) requires (xo & 1) == 1;
+    lemma_br_shr32(x, i);
+    vstd::arithmetic::power2::lemma_pow2_pos(i as nat);
+    let p = pow2(i as nat) as int;
+    vstd::arithmetic::div_mod::lemma_fundamental_div_mod(x as int, p);
+    vstd::arithmetic::div_mod::lemma_mod_bound(x as int, p);
+    assert((xo as int) * p == p * (xo as int)) by (nonlinear_arith);
+    lemma_br_shl32(xo, i);
+    assert((xo as int) <= (xo as int) * p) by (nonlinear_arith) requires p >= 1, xo >= 0;
+}
+
+/// trailing_zeros(a | b) == min(trailing_zeros(a), trailing_zeros(b))
+pub proof fn lemma_br_tz32_or(a: u32, b: u32)
+    requires a != 0, b != 0,
+    ensures br_tz32((a | b)) == (if br_tz32(a) <= br_tz32(b) { br_tz32(a) } else { br_tz32(b) }), (a | b) != 0,
+{
+    let c = a | b;
+    let i = br_tz32(a); let j = br_tz32(b); let s = br_tz32(c);
+    lemma_br_tz32_bits(a); lemma_br_tz32_bits(b); lemma_br_tz32_bits(c);
+    assert(c != 0) by (bit_vector) requires c == a | b, a != 0;
+    assert(s == (if i <= j { i } else { j })) by (bit_vector)
+        requires c == a | b, i < 32, j < 32, s < 32,
+            ((a >> i) & 1) == 1, ((a >> i) << i) == a, ((b >> j) & 1) == 1, ((b >> j) << j) == b,
+            ((c >> s) & 1) == 1, ((c >> s) << s) == c;
+}
+
+pub proof fn lemma_br_or_zero32(a: u32, b: u32)
     ensures a == 0 ==> (a | b) == b, b == 0 ==> (a | b) == a, ((a | b) > 0) == (a != 0 || b != 0),
         ((a & b & 1) > 0) == ((a as int) % 2 == 1 && (b as int) % 2 == 1),
 {
@@ -173,10 +292,12 @@ pub proof fn lemma_br_shr128(x: u128, k: u32)
     if k == 0 {
         assert(x >> 0u32 == x) by (bit_vector);
         vstd::arithmetic::power2::lemma2_to64();
+        assert((x as int) / 1 == x as int);
     } else {
         let k1 = (k - 1) as u32;
         lemma_br_pow2_step(k as nat);
         let p = pow2(k1 as nat) as int;
+        assert(pow2(k as nat) as int == p * 2);
         lemma_br_shr128(x, k1);
         let y = x >> k1;
         assert(x >> k == (y >> 1u32)) by (bit_vector) requires y == x >> k1, k1 == (k - 1) as u32, 0 < k < 128;
@@ -203,7 +324,7 @@ pub proof fn lemma_br_tz128_bits(x: u128)
 
 pub proof fn lemma_br_tz128(x: u128)
     requires x != 0,
-    ensures br_tz128(x) < 128, ((x >> br_tz128(x)) as int) % 2 == 1, (x >> br_tz128(x)) >= 1,
+    ensures br_tz128(x) < 128, ((x >> br_tz128(x)) as int) % 2 == 1, (x >> br_tz128(x)) >= 1, (x >> br_tz128(x)) <= x,
         x as int == ((x >> br_tz128(x)) as int) * pow2(br_tz128(x) as nat),
 {
     let i = br_tz128(x);
@@ -217,6 +338,7 @@ pub proof fn lemma_br_tz128(x: u128)
     vstd::arithmetic::div_mod::lemma_mod_bound(x as int, p);
     assert((xo as int) * p == p * (xo as int)) by (nonlinear_arith);
     lemma_br_shl128(xo, i);
+    assert((xo as int) <= (xo as int) * p) by (nonlinear_arith) requires p >= 1, xo >= 0;
 }
 
 pub proof fn lemma_br_tz128_or(a: u128, b: u128)
@@ -250,4 +372,171 @@ pub proof fn lemma_br_or_hi128(a: u128, b: u128)
 {
     assert((((a | b) >> 64u32) == 0) == (a <= 0xffff_ffff_ffff_ffffu128 && b <= 0xffff_ffff_ffff_ffffu128)) by (bit_vector);
     assert(((a >> 64u32) > 0) == (a > 0xffff_ffff_ffff_ffffu128)) by (bit_vector);
+}
+
+/// (a | b) >> 32 == 0  <==>  both fit in 32 bits   (u64 seen as two u32 halves: 32-bit targets)
+pub proof fn lemma_br_or_hi64(a: u64, b: u64)
+    ensures (((a | b) >> 32u32) == 0) == (a <= 0xffff_ffffu64 && b <= 0xffff_ffffu64),
+        ((a >> 32u32) > 0) == (a > 0xffff_ffffu64),
+{
+    assert((((a | b) >> 32u32) == 0) == (a <= 0xffff_ffffu64 && b <= 0xffff_ffffu64)) by (bit_vector);
+    assert(((a >> 32u32) > 0) == (a > 0xffff_ffffu64)) by (bit_vector);
+}
+
+/// s <= trailing_zeros(x):  x == (x >> s) * 2^s  (nothing is shifted out)
+pub proof fn lemma_br_shr_exact64(x: u64, s: u32)
+    requires x != 0, s <= br_tz64(x),
+    ensures s < 64, x as int == ((x >> s) as int) * pow2(s as nat), (x >> s) >= 1, (x >> s) <= x, pow2(s as nat) >= 1,
+{
+    let i = br_tz64(x);
+    lemma_br_tz64_bits(x);
+    let xs = x >> s;
+    assert(((x >> s) << s) == x && (x >> s) >= 1) by (bit_vector)
+        requires s <= i, i < 64, ((x >> i) & 1) == 1, ((x >> i) << i) == x;
+    lemma_br_shr64(x, s);
+    vstd::arithmetic::power2::lemma_pow2_pos(s as nat);
+    let p = pow2(s as nat) as int;
+    vstd::arithmetic::div_mod::lemma_fundamental_div_mod(x as int, p);
+    vstd::arithmetic::div_mod::lemma_mod_bound(x as int, p);
+    assert((xs as int) * p == p * (xs as int)) by (nonlinear_arith);
+    lemma_br_shl64(xs, s);
+    assert((xs as int) <= (xs as int) * p) by (nonlinear_arith) requires p >= 1, xs >= 0;
+}
+
+/// g << s == g * 2^s when g * 2^s <= bound <= MAX
+pub proof fn lemma_br_shl_le64(g: u64, s: u32, bound: u64)
+    requires s < 64, (g as int) * pow2(s as nat) <= bound,
+    ensures (g << s) as int == (g as int) * pow2(s as nat),
+{
+    lemma_br_shl64(g, s);
+}
+
+/// s <= trailing_zeros(x):  x == (x >> s) * 2^s  (nothing is shifted out)
+pub proof fn lemma_br_shr_exact128(x: u128, s: u32)
+    requires x != 0, s <= br_tz128(x),
+    ensures s < 128, x as int == ((x >> s) as int) * pow2(s as nat), (x >> s) >= 1, (x >> s) <= x, pow2(s as nat) >= 1,
+{
+    let i = br_tz128(x);
+    lemma_br_tz128_bits(x);
+    let xs = x >> s;
+    assert(((x >> s) << s) == x && (x >> s) >= 1) by (bit_vector)
+        requires s <= i, i < 128, ((x >> i) & 1) == 1, ((x >> i) << i) == x;
+    lemma_br_shr128(x, s);
+    vstd::arithmetic::power2::lemma_pow2_pos(s as nat);
+    let p = pow2(s as nat) as int;
+    vstd::arithmetic::div_mod::lemma_fundamental_div_mod(x as int, p);
+    vstd::arithmetic::div_mod::lemma_mod_bound(x as int, p);
+    assert((xs as int) * p == p * (xs as int)) by (nonlinear_arith);
+    lemma_br_shl128(xs, s);
+    assert((xs as int) <= (xs as int) * p) by (nonlinear_arith) requires p >= 1, xs >= 0;
+}
+
+/// g << s == g * 2^s when g * 2^s <= bound <= MAX
+pub proof fn lemma_br_shl_le128(g: u128, s: u32, bound: u128)
+    requires s < 128, (g as int) * pow2(s as nat) <= bound,
+    ensures (g << s) as int == (g as int) * pow2(s as nat),
+{
+    lemma_br_shl128(g, s);
+}
+
+/// s <= trailing_zeros(x):  x == (x >> s) * 2^s  (nothing is shifted out)
+pub proof fn lemma_br_shr_exact32(x: u32, s: u32)
+    requires x != 0, s <= br_tz32(x),
+    ensures s < 32, x as int == ((x >> s) as int) * pow2(s as nat), (x >> s) >= 1, (x >> s) <= x, pow2(s as nat) >= 1,
+{
+    let i = br_tz32(x);
+    lemma_br_tz32_bits(x);
+    let xs = x >> s;
+    assert(((x >> s) << s) == x && (x >> s) >= 1) by (bit_vector)
+        requires s <= i, i < 32, ((x >> i) & 1) == 1, ((x >> i) << i) == x;
+    lemma_br_shr32(x, s);
+    vstd::arithmetic::power2::lemma_pow2_pos(s as nat);
+    let p = pow2(s as nat) as int;
+    vstd::arithmetic::div_mod::lemma_fundamental_div_mod(x as int, p);
+    vstd::arithmetic::div_mod::lemma_mod_bound(x as int, p);
+    assert((xs as int) * p == p * (xs as int)) by (nonlinear_arith);
+    lemma_br_shl32(xs, s);
+    assert((xs as int) <= (xs as int) * p) by (nonlinear_arith) requires p >= 1, xs >= 0;
+}
+
+/// g << s == g * 2^s when g * 2^s <= bound <= MAX
+pub proof fn lemma_br_shl_le32(g: u32, s: u32, bound: u32)
+    requires s < 32, (g as int) * pow2(s as nat) <= bound,
+    ensures (g << s) as int == (g as int) * pow2(s as nat),
+{
+    lemma_br_shl32(g, s);
+}
+
+
+// ---- leading_zeros in integers (normalisation of the square-root wrappers) -------------------------------------------------------
+
+pub open spec fn br_lz64(x: u64) -> u32 { vstd::std_specs::bits::u64_leading_zeros(x) as u32 }
+pub open spec fn br_lz128(x: u128) -> u32 { dd_lz(x) }
+
+/// x != 0:  lz < 64,  2^(63 - lz) <= x < 2^(64 - lz);   the even shift `lz & !1`
+pub proof fn lemma_br_lz64(x: u64)
+    requires x != 0,
+    ensures br_lz64(x) < 64, pow2((63 - br_lz64(x)) as nat) <= x as int, (x as int) < pow2((64 - br_lz64(x)) as nat),
+        (br_lz64(x) & !1u32) % 2 == 0, (br_lz64(x) & !1u32) <= br_lz64(x), br_lz64(x) <= (br_lz64(x) & !1u32) + 1,
+{
+    let z = br_lz64(x);
+    vstd::std_specs::bits::axiom_u64_leading_zeros(x);
+    let zw = z as u64;
+    let top = (63 - z) as u32;
+    assert(sub(63u64, zw) == top as u64);
+    assert(((x >> (top as u64)) & 1) != 0);
+    assert((x >> top) >= 1) by (bit_vector) requires ((x >> (top as u64)) & 1) != 0, top < 64;
+    lemma_br_shr64(x, top);
+    vstd::arithmetic::power2::lemma_pow2_pos(top as nat);
+    vstd::arithmetic::div_mod::lemma_fundamental_div_mod(x as int, pow2(top as nat) as int);
+    vstd::arithmetic::div_mod::lemma_mod_bound(x as int, pow2(top as nat) as int);
+    assert(pow2(top as nat) <= x as int) by (nonlinear_arith)
+        requires x as int == pow2(top as nat) * ((x as int) / (pow2(top as nat) as int)) + (x as int) % (pow2(top as nat) as int),
+            (x as int) / (pow2(top as nat) as int) >= 1, (x as int) % (pow2(top as nat) as int) >= 0, pow2(top as nat) >= 1;
+    if z >= 1 {
+        let up = (64 - z) as u32;
+        assert(sub(64u64, zw) == up as u64);
+        assert(x >> (up as u64) == 0);
+        assert((x >> up) == 0) by (bit_vector) requires x >> (up as u64) == 0, up < 64;
+        lemma_br_shr64(x, up);
+        vstd::arithmetic::power2::lemma_pow2_pos(up as nat);
+        vstd::arithmetic::div_mod::lemma_fundamental_div_mod(x as int, pow2(up as nat) as int);
+        vstd::arithmetic::div_mod::lemma_mod_bound(x as int, pow2(up as nat) as int);
+        assert(pow2(up as nat) * 0 == 0);
+    } else {
+        lemma_br_pow2_64();
+    }
+    assert((z & !1u32) % 2 == 0 && (z & !1u32) <= z && z <= (z & !1u32) + 1) by (bit_vector) requires z < 64;
+}
+
+pub proof fn lemma_br_lz128(x: u128)
+    requires x != 0,
+    ensures br_lz128(x) < 128, pow2((127 - br_lz128(x)) as nat) <= x as int, (x as int) < pow2((128 - br_lz128(x)) as nat),
+        (br_lz128(x) & !1u32) % 2 == 0, (br_lz128(x) & !1u32) <= br_lz128(x), br_lz128(x) <= (br_lz128(x) & !1u32) + 1,
+{
+    let z = br_lz128(x);
+    axiom_dd_lz(x);
+    let top = (127 - z) as u32;
+    assert(((x >> (top as u128)) & 1) == 1);
+    assert((x >> top) >= 1) by (bit_vector) requires ((x >> (top as u128)) & 1) == 1, top < 128;
+    lemma_br_shr128(x, top);
+    vstd::arithmetic::power2::lemma_pow2_pos(top as nat);
+    vstd::arithmetic::div_mod::lemma_fundamental_div_mod(x as int, pow2(top as nat) as int);
+    vstd::arithmetic::div_mod::lemma_mod_bound(x as int, pow2(top as nat) as int);
+    assert(pow2(top as nat) <= x as int) by (nonlinear_arith)
+        requires x as int == pow2(top as nat) * ((x as int) / (pow2(top as nat) as int)) + (x as int) % (pow2(top as nat) as int),
+            (x as int) / (pow2(top as nat) as int) >= 1, (x as int) % (pow2(top as nat) as int) >= 0, pow2(top as nat) >= 1;
+    if z >= 1 {
+        let up = (128 - z) as u32;
+        assert(x >> (up as u128) == 0);
+        assert((x >> up) == 0) by (bit_vector) requires x >> (up as u128) == 0, up < 128;
+        lemma_br_shr128(x, up);
+        vstd::arithmetic::power2::lemma_pow2_pos(up as nat);
+        vstd::arithmetic::div_mod::lemma_fundamental_div_mod(x as int, pow2(up as nat) as int);
+        vstd::arithmetic::div_mod::lemma_mod_bound(x as int, pow2(up as nat) as int);
+        assert(pow2(up as nat) * 0 == 0);
+    } else {
+        lemma_br_pow2_64();
+    }
+    assert((z & !1u32) % 2 == 0 && (z & !1u32) <= z && z <= (z & !1u32) + 1) by (bit_vector) requires z < 128;
 }
